@@ -294,5 +294,5 @@ def targets(tier):
         Target("law-small", check_small, enumerate_=enum_small, exhaustive=True),
         Target("privkey", check_privkey, strategy=lambda tier: privkey_cases(), budget={"quick": 1500, "thorough": 30000},
                required=["nt:invalid-len", "nt:invalid-range", "nt:valid-boundary-or-leading-zero"]),
-        Target("keygen", check_keygen, enumerate_=enum_keygen, required=["nt:draw-zero|rng-not-consulted", "nt:draw-max|rng-not-consulted", "nt:draw-one|rng-not-consulted"], shards=2),
+        Target("keygen", check_keygen, enumerate_=enum_keygen, required=["nt:draw-zero || rng-not-consulted", "nt:draw-max || rng-not-consulted", "nt:draw-one || rng-not-consulted"], shards=2),
     ]
